@@ -106,6 +106,7 @@ type enc struct {
 	clockOf     map[string]int
 	storeOf     map[string]storeRec
 	inStore     bool
+	callBinds   map[string]bool // cells bound to the closure being called
 }
 
 type EncOpts struct {
@@ -522,6 +523,16 @@ func (e *enc) val(v ssa.Value) string {
 		e.assume(e.allocated(n, e.entryState()))
 		el := c.Type().Underlying().(*types.Pointer).Elem()
 		e.locs[v] = e.cellLoc(n, el)
+		if closureFnSync(e.f) {
+			// the captured variable belongs to the creating activation, which is suspended while we run
+			pa := privAlloc{ref: n, arrs: map[string]bool{}}
+			if _, isStruct := el.Underlying().(*types.Struct); isStruct {
+				structArrays(el, pa.arrs, 0)
+			} else {
+				pa.arrs[arrCell(el)] = true
+			}
+			e.priv = append(e.priv, pa)
+		}
 		return n
 	case *ssa.Global:
 		n := "g_" + sname(c.Pkg.Pkg.Name()+"_"+c.Name())
@@ -683,7 +694,7 @@ func (e *enc) havocHeap(keep func(string) bool) {
 			e.assume(fmt.Sprintf("(forall ((r Ref)) (! (=> (and (< (birth r) %s) %s) (= (select %s r) (select %s r))) :pattern ((select %s r))))", nowPre, c, nv, old, nv))
 		}
 		for _, p := range e.priv {
-			if p.arrs[a] {
+			if p.arrs[a] && !e.callBinds[p.ref] {
 				e.assume(fmt.Sprintf("(= (select %s %s) (select %s %s))", nv, p.ref, old, p.ref))
 			}
 		}
